@@ -67,6 +67,14 @@ Definition ws_table : list N :=
    8192; 8193; 8194; 8195; 8196; 8197; 8198; 8199; 8200; 8201; 8202;
    8232; 8233; 8239; 8287; 12288].
 
+(* the code points for which lex::is_token_delimiter_char holds: the first
+   characters of the operators and the blanks (white space except newline,
+   which is an operator) *)
+Definition delim_table : list N :=
+  [9; 10; 11; 12; 13; 32; 38; 40; 41; 59; 60; 62; 124; 133; 160; 5760;
+   8192; 8193; 8194; 8195; 8196; 8197; 8198; 8199; 8200; 8201; 8202;
+   8232; 8233; 8239; 8287; 12288].
+
 (* ===================================================================== *)
 (* yash-quote                                                            *)
 (* ===================================================================== *)
@@ -520,3 +528,72 @@ Fixpoint run_lines (lws : N -> bool) (fuel : nat) (inp : str) : option (list sim
   end.
 
 Definition lines_fuel (inp : str) : nat := S (length inp).
+
+(* ---- array assignment  name=(word ...)  -------------------------------------- *)
+
+Inductive arrres :=
+| AOk (name : str) (elems : list outcome) (rest : str)
+| ASyntax                 (* unclosed quotation or array value *)
+| AOutside                (* not an array assignment the model covers *)
+| AOutOfFuel.
+
+Inductive elemsres :=
+| EOk (ws : list (list wunit)) (rest : str)
+| ESyntax
+| EOutside
+| EOutOfFuel.
+
+(* Parser::array_values after the opening parenthesis: words separated by
+   blanks, comments and newlines up to the closing parenthesis; any other
+   operator or the end of input is an error (UnclosedArrayValue) *)
+Fixpoint read_elems (lws : N -> bool) (fuel : nat) (inp : str) : elemsres :=
+  match fuel with
+  | O => EOutOfFuel
+  | S fuel =>
+      let inp1 := skip_blanks lws inp in
+      match inp1 with
+      | [] => ESyntax
+      | c :: r =>
+          if N.eqb c c_hash then read_elems lws fuel (skip_comment r)
+          else if N.eqb c c_nl then read_elems lws fuel r
+          else if N.eqb c c_rpar then EOk [] r
+          else if is_operator_char c then ESyntax
+          else
+            match lex lws MUnq inp1 with
+            | LWord us rest =>
+                if all_digits us
+                   && match rest with d :: _ => N.eqb d c_lt || N.eqb d c_gt | [] => false end
+                then ESyntax             (* an IO_NUMBER token is not a word *)
+                else
+                  match read_elems lws fuel rest with
+                  | EOk ws rest' => EOk (us :: ws) rest'
+                  | e => e
+                  end
+            | LUnclosed => ESyntax
+            | LUnsupported => EOutside
+            end
+      end
+  end.
+
+(* Parser::simple_command on  name=( ... ) : the first token is an assignment
+   word with an empty value directly followed by the parenthesis; the elements
+   are expanded like command words (ExpansionMode::Multiple) *)
+Definition run_array_line (lws : N -> bool) (inp : str) : arrres :=
+  let inp1 := skip_blanks lws inp in
+  match lex lws MUnq inp1 with
+  | LWord us rest =>
+      match as_assign us, rest with
+      | Some (name, []), c :: r =>
+          if N.eqb c c_lpar then
+            match read_elems lws (S (length r)) r with
+            | EOk ws rest' => AOk name (map read_multi ws) rest'
+            | ESyntax => ASyntax
+            | EOutside => AOutside
+            | EOutOfFuel => AOutOfFuel
+            end
+          else AOutside
+      | _, _ => AOutside
+      end
+  | LUnclosed => ASyntax
+  | LUnsupported => AOutside
+  end.
